@@ -80,6 +80,10 @@ CLAIMED = {
          "For every file and every insertion point before a top-level item / after the last one, every query at every cursor is asked in the original and (at the moved cursor) in the translated file; canonical results must be equal after un-shifting positions. Both worlds are fully re-collected.",
          "Premises: token sequence and parser tree of the translated file equal the original's, shifted (else the case is counted as skipped); a cursor exactly at the insertion point may match either translation.",
          "DESIGN.md §6 C18"),
+ "C19": ("exploration", "bounded-exhaustive differential enumeration of abstract configurations rendered in native and JSON syntax",
+         "Every abstract configuration of the generator (value forms x attribute contexts x block structures; JSON in object and array form) is rendered in both syntaxes under one schema; projections of absolute targets, of origins (with the documented weaker JSON constraints) and of the block/attribute symbol outline must be equal. The JSON renderings and their prefixes also run through the C01/C02 sweeps.",
+         "Block-local targets, ranges and expression-element symbols are outside the comparison as the property says.",
+         "DESIGN.md §6 C19"),
 }
 
 NOT_APPLICABLE = {
